@@ -345,3 +345,13 @@ def complementary_product(ctx):
     om = F.fn('abe_policy::access_structure::AccessStructure::omega')
     ctx.check(len(om.calls(r'access_structure::combine$')) == 1, om.key, 'omega = combine(all dimensions)',
               'omega no longer enumerates the universe through combine', 'combine(universe)', om.where())
+
+
+@rule('C01', 'refresh-keeps-order', configs=('default', 'p256'))
+def refresh_keeps_order(ctx):
+    """'... (after refresh if keys were rotated)': a refreshed chain lists the secrets newest first like the master chain it is
+    merged with — appended with push_back while walking the master chain from its head (C04.orientation) — otherwise the next
+    keep-old merge sees a divergence that is not there and drops secrets the key should keep (C04.keep-old-merge)."""
+    from . import c04
+    c04.orientation(ctx)
+    c04.keep_old_merge(ctx)
